@@ -12,19 +12,6 @@ Lemma eqb_dash_not_dot c : Ascii.eqb c dash = true -> Ascii.eqb c dot = false.
 Proof. intros H. apply Ascii.eqb_eq in H. subst c. reflexivity. Qed.
 
 (** ---------- round trip ---------- *)
-(** after a '.', the next character is neither '.' nor '-' *)
-Fixpoint rt_ok (s : string) : bool :=
-  match s with
-  | EmptyString => true
-  | String c r =>
-      (if Ascii.eqb c dot
-       then match r with
-            | String d _ => negb (Ascii.eqb d dash) && negb (Ascii.eqb d dot)
-            | EmptyString => true
-            end
-       else true) && rt_ok r
-  end.
-
 Lemma uninline_inline_ok : forall s, rt_ok s = true -> uninline (inline s) = s.
 Proof.
   induction s as [|c r IH]; intros Hok; [reflexivity|].
